@@ -380,3 +380,22 @@ package strategy
 //@   ensures[C03,C20] value: result == int(s.limit)
 //@   assigns nothing
 //@   owns[C17]
+
+//@ func NewPreciseStrategy
+//@   requires fits: limit <= MaxInt32
+//@   ensures[C01,C19] fresh_gate: fresh(result) && result.limit == max(1, limit) && result.inFlight == 0
+//@   establishes[C01] result
+//@ func NewPreciseStrategyWithMetricRegistry
+//@   requires fits: limit <= MaxInt32 && registry != nil
+//@   ensures[C01,C19] fresh_gate: fresh(result) && result.limit == max(1, limit) && result.inFlight == 0 && result.metricListener != nil
+//@   ensures[C20] limit_gauge: ncalls("core.MetricRegistry.RegisterGauge") == 1 && callarg("core.MetricRegistry.RegisterGauge", 0, 0) == "limit" && isfunc(*captured(callarg("core.MetricRegistry.RegisterGauge", 0, 1), "core.NewIntMetricSupplierWrapper$1", 0), "(*strategy.PreciseStrategy).GetLimit$bound") && captured(*captured(callarg("core.MetricRegistry.RegisterGauge", 0, 1), "core.NewIntMetricSupplierWrapper$1", 0), "(*strategy.PreciseStrategy).GetLimit$bound", 0) == result
+//@   establishes[C01] result
+//@ func NewSimpleStrategy
+//@   requires fits: limit <= MaxInt32
+//@   ensures[C01] fresh_gate: fresh(result) && *result.limit == max(1, limit) && *result.inFlight == 0
+//@   establishes[C01] result
+//@ func NewSimpleStrategyWithMetricRegistry
+//@   requires fits: limit <= MaxInt32 && registry != nil
+//@   ensures[C01] fresh_gate: fresh(result) && *result.limit == max(1, limit) && *result.inFlight == 0 && result.metricListener != nil
+//@   ensures[C20] limit_gauge: ncalls("core.MetricRegistry.RegisterGauge") == 1 && callarg("core.MetricRegistry.RegisterGauge", 0, 0) == "limit" && isfunc(*captured(callarg("core.MetricRegistry.RegisterGauge", 0, 1), "core.NewIntMetricSupplierWrapper$1", 0), "(*strategy.SimpleStrategy).GetLimit$bound") && captured(*captured(callarg("core.MetricRegistry.RegisterGauge", 0, 1), "core.NewIntMetricSupplierWrapper$1", 0), "(*strategy.SimpleStrategy).GetLimit$bound", 0) == result
+//@   establishes[C01] result
